@@ -3,7 +3,7 @@ from ..rules import delivery, flow
 from .common import declare
 
 RULES = ['FANOUT', 'EMIT-SIG', 'PASS-VALUE', 'FIFO-END', 'SWAP-ATOMIC', 'FLUSH-RESETS', 'STATE-PER-INSTANCE', 'FRESH-READ', 'REVERSED-STACK', 'FLAT-RETURN', 'PROPAGATE']
-FLOORS = {'FANOUT': 3, 'EMIT-SIG': 30, 'PASS-VALUE': 14, 'FIFO-END': 10, 'SWAP-ATOMIC': 6, 'FLAT-RETURN': 20, 'PROPAGATE': 30}
+FLOORS = {'FANOUT': 4, 'EMIT-SIG': 30, 'PASS-VALUE': 14, 'FIFO-END': 10, 'SWAP-ATOMIC': 6, 'FLAT-RETURN': 20, 'PROPAGATE': 30}
 CATALOGUE = ('Stream', 'map', 'starmap', 'filter', 'accumulate', 'slice', 'partition', 'partition_unique',
              'sliding_window', 'unique', 'flatten', 'pluck', 'collect', 'union', 'zip', 'combine_latest', 'zip_latest')
 
